@@ -48,6 +48,42 @@ def unhex(s: str) -> bytes:
     return b"" if s == "-" else bytes.fromhex(s)
 
 
+DRIVER_SECONDS = 900
+
+# --- heartbeat: every call of the real parser announces its input in a file of its own process, so that the
+# supervisor (harness/supervise.py) can tell WHICH input a conversion hangs on (a regular-expression blow-up inside
+# `re` / `regex` holds the interpreter lock: nothing inside the process can interrupt or even observe it)
+HB_DIR = os.environ.get("VERIF_HB_DIR")
+
+
+def _install_heartbeat():
+    if not HB_DIR:
+        return
+    try:
+        import json as _json
+        import time as _time
+        from coco.b09 import grammar as _g
+        orig = _g.grammar.parse
+
+        def parse(text, pos=0):
+            path = os.path.join(HB_DIR, f"{os.getpid()}.json")
+            try:
+                with open(path, "w") as fh:
+                    _json.dump({"t": _time.time(), "text": text[:20000]}, fh)
+            except OSError:
+                pass
+            try:
+                return orig(text, pos)
+            finally:
+                try:
+                    os.unlink(path)
+                except OSError:
+                    pass
+        _g.grammar.parse = parse
+    except Exception:  # noqa: BLE001
+        pass
+
+
 def run_driver(lines):
     """Send request lines to the compiled Lean driver, return the answer lines."""
     if not lines:
@@ -56,7 +92,11 @@ def run_driver(lines):
         fin.write("\n".join(lines) + "\n")
         fin.flush()
         fin.seek(0)
-        p = subprocess.run([DRIVER], stdin=fin, capture_output=True, text=True)
+        try:
+            p = subprocess.run([DRIVER], stdin=fin, capture_output=True, text=True, timeout=DRIVER_SECONDS)
+        except subprocess.TimeoutExpired:
+            # the model is total but may be slow on a grammar whose regular expressions blow up: no model answer
+            return [f"model-timeout (no answer from the Lean driver within {DRIVER_SECONDS} s)"] * len(lines)
     if p.returncode != 0:
         raise RuntimeError(f"driver failed rc={p.returncode}: {p.stderr[-2000:]}")
     out = p.stdout.split("\n")
@@ -88,3 +128,6 @@ class Timer:
 
     def s(self):
         return round(time.time() - self.t0, 2)
+
+
+_install_heartbeat()
